@@ -90,7 +90,7 @@ func VerifC01Apply() {
 	rt.Assume(hdr.NodeID != w.store.ID())
 	preOK, minOK := true, true
 	if snapshot {
-		hdr.MinTXID, hdr.MaxTXID = 1, ltx.TXID([]uint64{42, 7, 41}[rt.Choose("snap.max", 3)]) // ahead, behind, or the very TXID this node is at (other history)
+		hdr.MinTXID, hdr.MaxTXID = 1, ltx.TXID([]uint64{42, 7, 41, 1}[rt.Choose("snap.max", 4)]) // ahead, behind, the very TXID this node is at (other history), or a one-transaction history
 	} else {
 		hdr.MinTXID = ltx.TXID([]uint64{42, 43, 41}[rt.Choose("min.txid", 3)])
 		hdr.MaxTXID = hdr.MinTXID
